@@ -52,6 +52,7 @@ def oracle(rep):
     """Spec oracle on the implementation's replies only: one result per lookup batch, the winner is a
     most specific registered match (default iff none), the same result after a restart."""
     keys, last, regd, torn, maybe_all = set(), {}, {}, None, set()
+    files = {}
     for op, line in zip(rep["ops"], rep["impl"]):
         f = op.split(" ")
         if line.startswith("timeout"):
@@ -60,6 +61,31 @@ def oracle(rep):
             return (None, "`%s` panicked" % op)
         if f[0] == "case":
             keys, last, regd, torn, maybe_all = set(), {}, {}, None, set()
+            files = {}
+        elif f[0] == "live":
+            # the swamp is created with the settings that resolve NOW: in-memory = starts empty, nothing reaches the disk;
+            # persistent = loads what is on disk and persists the new treasure
+            name = tuple(f[1:4])
+            if not line.startswith("live "):
+                return (None, "`%s` answered %s" % (op, line))
+            if torn is not None or any(_matches(name, k) for k in maybe_all):
+                files.pop(name, None)
+                continue
+            matching = [k for k in keys if _matches(name, k)]
+            best = [k for k in matching if not any(_more_specific(q, k) for q in matching)]
+            if len(best) > 1:
+                continue
+            in_mem = bool(best) and regd[best[0]].startswith("M")
+            prev = files.get(name)
+            if prev is None and name in files:
+                continue
+            prev = prev or 0
+            want = "live count=1 disk=%s" % str(prev > 0).lower() if in_mem else "live count=%d disk=true" % (prev + 1)
+            if not in_mem:
+                files[name] = prev + 1
+            if line != want:
+                return (None, "a swamp of %s opened while the settings resolve to %s (%s) behaved as `%s`, expected `%s`"
+                        % ("/".join(name), "/".join(best[0]) if best else "the default", "in-memory" if in_mem else "persistent", line, want))
         elif f[0] == "regtorn":
             # the runtime has the pattern; whether it survives a restart is open — everything saved BEFORE must survive
             keys.add(tuple(f[1:4]))
@@ -134,9 +160,12 @@ def run(ctx):
     samples = [{"ops": [c.ops[i] for i in cs], "impl": [c.impl[i] for i in cs if i < len(c.impl)]} for cs in c.cases[:2]]
     return K.finish(
         ctx, "proof",
-        rule=("cases = 3 corpus cases + random histories of reg/dereg/get/restart over patterns {a,b,*}x{x,y,*}x{p,q,*} (at most 8 "
+        rule=("cases = 7 corpus cases + random histories of reg/dereg/get/live/restart over patterns {a,b,*}x{x,y,*}x{p,q,*} or, in a third of the "
+              "cases, parts that differ in letter case or are prefixes of one another ({ab,aB,a,*}x{xy,xY,x,*}x{pq,Pq,pqr,*}) (at most 8 "
               "distinct keys per case, re-registrations with changed and unchanged numbers), each closed by the same three lookups "
-              "before and after a restart; every get is 300 real lookups and replies the set of distinct results; a case is "
+              "before and after a restart; every get is 300 real lookups and replies the set of distinct results; live = hydra + gateway on "
+              "the same settings object: a treasure is written into the swamp, counted, the swamp closed and looked up on disk (the swamp "
+              "must have been created with the settings that resolve at that moment); a case is "
               "non-trivial when it has >= 3 ops; distinct = distinct op texts; model reply = every result some map order can give"),
         samples=samples, evaluations=len(c.ops), distinct_nontrivial=K.distinct_cases(c),
         extra_cov={"correspondence": {"domain": "C21", "cases": len(c.cases), "op_lines": len(c.ops), "mismatching_lines": len(c.mismatch),
